@@ -15,7 +15,7 @@
 EXTENDS Integers, Sequences, FiniteSets, TLC, Json, IOUtils
 
 CONSTANT NoStart
-MaxCmds == 0  Codes == {}  Outs == {}  Modes == {}  Ops == {}  NameLists == {}  RejectEmpty == TRUE
+MaxCmds == 0  Codes == {}  Outs == {}  Modes == {}  Ops == {}  NameLists == {}  NameAlphabets == {}  RejectEmpty == TRUE
 VARIABLES op, mode, cmds, pc, rcs, out, err, status, raised, escaped, names, k, accepted, fs
 R == INSTANCE RunCmd
 
